@@ -204,7 +204,20 @@ def gen_routine(rng, break_io=None):
         if k == 19:
             return "  dadd%s #0x%04x, r%d" % ("", rng.pick(BCD), r) if False else "  add.w r%d, r%d" % (r, q)
         if k == 20 and nsub:
-            return "  call #sub%d" % rng.below(nsub)
+            # every form of CALL: immediate, register, indirect, indirect auto-increment, indexed, absolute
+            t = rng.below(nsub)
+            form = rng.below(6)
+            if form == 0:
+                return "  call #sub%d" % t
+            if form == 1:
+                return "  mov.w #sub%d, r13\n  call r13" % t
+            if form == 2:
+                return "  mov.w #sub%d, &0x03f0\n  mov.w #0x03f0, r13\n  call @r13" % t
+            if form == 3:
+                return "  mov.w #sub%d, &0x03f2\n  mov.w #0x03f2, r13\n  call @r13+" % t
+            if form == 4:
+                return "  mov.w #sub%d, &0x03f4\n  mov.w #0x03f0, r13\n  call 4(r13)" % t
+            return "  mov.w #sub%d, &0x03f6\n  call &0x03f6" % t
         return "  mov%s %d(r14), r%d" % (b or ".w", 2 * rng.below(8), r)
 
     lines.append("  mov.w #0x%04x, r14" % DATA_LO)
@@ -584,6 +597,20 @@ class C14(Engine):
                     res.fault("sigint_in_run_loop")
             else:
                 res.probe("sigint_not_delivered_before_the_end")
+        # (4a) run interrupted by SIGINT, then single steps: an interrupt must not leave the simulator deaf to step
+        m_steps = plan["steps"] % 4 + 1
+        u = util(["r.hex"], ["speed %d" % plan["speed"], "run", "registers"] + ["step"] * m_steps + ["registers", "quit"],
+                 [{"trigger": "usleep", "k": k}])
+        if sane(u, "sigint+step"):
+            regs_out = [b for c, b in segments(u) if c == "registers"]
+            if len(regs_out) >= 2 and counters_dict(u).get("sigint_handled"):
+                d1 = parse_dump(regs_out[0])
+                cand = [r for r in ref[3:6] if d1 is not None and r["regs"][0] == d1[0][0] and r["cycles"] == d1[1]]
+                if cand and cand[0]["end"] == "steps" and cand[0]["steps"] + m_steps < full["steps"]:
+                    refs = self.model(ex, res, image, [{"regs": reset, "nsteps": cand[0]["steps"] + m_steps}])[0]
+                    if refs is not None and refs["end"] == "steps":
+                        self.compare(res, "sigint+step", "after-steps", parse_dump(regs_out[1]), refs)
+                        res.probe("sched:sigint+step")
         # (4b) run with a breakpoint at an instruction boundary the execution reaches, then resume without it
         if ref[2]["end"] == "steps" and 0 < ref[2]["steps"] < full["steps"]:
             bp = ref[2]["regs"][0]
